@@ -5,6 +5,7 @@ package harness
 import (
 	"context"
 	"fmt"
+	"io"
 	"sync"
 	"testing"
 
@@ -31,6 +32,120 @@ type c17Case struct {
 	// DoneCtx (fake base only): the caller's context is already cancelled; the layers run all the same (what
 	// to do with a finished context is the interceptors' and the transport's decision, not the wrapper's)
 	DoneCtx bool `json:",omitempty"`
+	// Sibling: after the chain is built, the channel below its top layer is wrapped once more with another
+	// interceptor (two wrappers sharing the stack beneath them); calls through the first are none of its business
+	Sibling bool `json:",omitempty"`
+	// Switch (non-empty = switch mode): the layers sit on a user-defined WrappedClientConn whose target is
+	// changed between calls (lazy dial, fail-over); each entry names the target of one call: "inproc" | "grpc".
+	// Interceptors are handed the *grpc.ClientConn underlying the call being made, nil if there is none.
+	Switch []string `json:",omitempty"`
+}
+
+type c17SwitchConn struct {
+	mu  sync.Mutex
+	cur grpc.ClientConnInterface
+}
+
+func (s *c17SwitchConn) get() grpc.ClientConnInterface {
+	s.mu.Lock()
+	defer s.mu.Unlock()
+	return s.cur
+}
+func (s *c17SwitchConn) Unwrap() grpc.ClientConnInterface { return s.get() }
+func (s *c17SwitchConn) Invoke(ctx context.Context, method string, req, resp interface{}, opts ...grpc.CallOption) error {
+	return s.get().Invoke(ctx, method, req, resp, opts...)
+}
+func (s *c17SwitchConn) NewStream(ctx context.Context, desc *grpc.StreamDesc, method string, opts ...grpc.CallOption) (grpc.ClientStream, error) {
+	return s.get().NewStream(ctx, desc, method, opts...)
+}
+
+func c17Switch(c c17Case) *Outcome {
+	o := &Outcome{NonTrivial: true}
+	o.class("switching-wrapped-conn/depth=%d/stream=%v", len(c.Layers), c.Stream)
+	svc := &Service{
+		Unary: func(ctx context.Context, req *pb.Message) (*pb.Message, error) { return &pb.Message{Count: 77}, nil },
+		Stream: func(kind string, stream grpc.ServerStream) error {
+			for stream.RecvMsg(new(pb.Message)) == nil {
+			}
+			return nil
+		},
+	}
+	inp := newCarrier(cInproc, newServiceDesc(), svc, carrierOpts{})
+	defer inp.Close()
+	grp := newCarrier(cGRPC, newServiceDesc(), svc, carrierOpts{})
+	defer grp.Close()
+	realCC, _ := grp.Conn.(*grpc.ClientConn)
+	sw := &c17SwitchConn{cur: inp.Conn}
+	var mu sync.Mutex
+	var seen []string
+	var ch grpc.ClientConnInterface = sw
+	n := len(c.Layers)
+	if n == 0 {
+		n = 1
+	}
+	for i := 0; i < n; i++ {
+		id := fmt.Sprintf("L%d", i)
+		ch = grpchan.InterceptClientConn(ch,
+			func(ctx context.Context, method string, req, reply interface{}, cc *grpc.ClientConn, invoker grpc.UnaryInvoker, opts ...grpc.CallOption) error {
+				mu.Lock()
+				seen = append(seen, id+"="+ccLabel(cc, realCC))
+				mu.Unlock()
+				return invoker(ctx, method, req, reply, cc, opts...)
+			},
+			func(ctx context.Context, desc *grpc.StreamDesc, cc *grpc.ClientConn, method string, streamer grpc.Streamer, opts ...grpc.CallOption) (grpc.ClientStream, error) {
+				mu.Lock()
+				seen = append(seen, id+"="+ccLabel(cc, realCC))
+				mu.Unlock()
+				return streamer(ctx, desc, cc, method, opts...)
+			})
+	}
+	for k, target := range c.Switch {
+		sw.mu.Lock()
+		want := "nil"
+		if target == "grpc" {
+			sw.cur, want = grp.Conn, "real"
+		} else {
+			sw.cur = inp.Conn
+		}
+		sw.mu.Unlock()
+		mu.Lock()
+		seen = nil
+		mu.Unlock()
+		var err error
+		stall := guard("call", func() {
+			ctx, cancel := context.WithCancel(context.Background())
+			defer cancel()
+			if c.Stream {
+				var cs grpc.ClientStream
+				cs, err = ch.NewStream(ctx, streamDescOf(kBidi), mBidi)
+				if err == nil {
+					cs.CloseSend()
+					if err = cs.RecvMsg(new(pb.Message)); err == io.EOF {
+						err = nil
+					}
+				}
+				return
+			}
+			err = ch.Invoke(ctx, mUnary, &pb.Message{Count: 5}, new(pb.Message))
+		})
+		if stall != "" {
+			return o.failf("switch mode: %s", stall)
+		}
+		if err != nil {
+			return o.failf("switch mode: call %d over %s failed: %v", k+1, target, err)
+		}
+		mu.Lock()
+		got := append([]string{}, seen...)
+		mu.Unlock()
+		var wantLog []string
+		for i := n - 1; i >= 0; i-- {
+			wantLog = append(wantLog, fmt.Sprintf("L%d=%s", i, want))
+		}
+		if !sameStrings(got, wantLog) {
+			return o.failf("switch mode: call %d of %v goes over %s: interceptors were handed %v, expected %v (the conn underlying this call)", k+1, c.Switch, target, got, wantLog)
+		}
+	}
+	return o
 }
 
 type c17Rec struct {
@@ -78,6 +193,13 @@ func ccLabel(cc *grpc.ClientConn, real *grpc.ClientConn) string {
 }
 
 func propC17(c c17Case) *Outcome {
+	if len(c.Switch) > 0 {
+		return c17Switch(c)
+	}
+	return propC17Chain(c)
+}
+
+func propC17Chain(c c17Case) *Outcome {
 	o := &Outcome{}
 	o.class("base=%s/depth=%d/stream=%v", c.Base, len(c.Layers), c.Stream)
 	o.NonTrivial = len(c.Layers) >= 2
@@ -163,6 +285,7 @@ func propC17(c c17Case) *Outcome {
 		}
 	}
 	ch := base
+	var lastPrev grpc.ClientConnInterface
 	for i, l := range c.Layers {
 		id := fmt.Sprintf("L%d", i)
 		prev := ch
@@ -173,6 +296,7 @@ func propC17(c c17Case) *Outcome {
 			}
 			continue
 		}
+		lastPrev = prev
 		w, ok := ch.(grpchan.WrappedClientConn)
 		if !ok {
 			return o.failf("wrapped channel does not implement WrappedClientConn")
@@ -180,6 +304,10 @@ func propC17(c c17Case) *Outcome {
 		if w.Unwrap() != prev {
 			return o.failf("Unwrap() does not return the wrapped channel at layer %d", i)
 		}
+	}
+	if c.Sibling && lastPrev != nil {
+		o.class("sibling-wrapper")
+		grpchan.InterceptClientConn(lastPrev, mkUnary("SIBLING", "sc-err"), mkStream("SIBLING", "sc-err"))
 	}
 	// model
 	ccWant := "nil"
@@ -350,8 +478,15 @@ func sameStrings(a, b []string) bool {
 }
 
 func genC17(t *rapid.T) c17Case {
+	if rapid.IntRange(0, 14).Draw(t, "switchmode") == 0 {
+		c := c17Case{Base: "switch", Stream: rapid.Bool().Draw(t, "stream")}
+		c.Layers = make([]c17Layer, rapid.IntRange(1, 3).Draw(t, "switchdepth"))
+		c.Switch = rapid.SliceOfN(rapid.SampledFrom([]string{"inproc", "grpc"}), 2, 4).Draw(t, "targets")
+		return c
+	}
 	c := c17Case{Base: rapid.SampledFrom([]string{"fake", "fake", "inproc", "http", "grpc", "grpc"}).Draw(t, "base"), Stream: rapid.Bool().Draw(t, "stream"), NOpts: rapid.IntRange(0, 2).Draw(t, "nopts")}
-	n := rapid.IntRange(0, 4).Draw(t, "depth")
+	n := rapid.OneOf(rapid.IntRange(0, 4), rapid.IntRange(0, 8)).Draw(t, "depth")
+	c.Sibling = rapid.IntRange(0, 2).Draw(t, "sibling") == 0
 	c.DoneCtx = c.Base == "fake" && rapid.IntRange(0, 3).Draw(t, "donectx") == 0
 	ub := []string{"", "pass", "pass", "pass", "sc-err", "sc-ctxerr", "sc-ok", "add-opt", "drop-opts", "rw-method", "twice", "rw-req"}
 	sb := []string{"", "pass", "pass", "pass", "sc-err", "sc-ctxerr", "add-opt", "drop-opts", "rw-method"}
@@ -365,7 +500,7 @@ func init() { registerReplay("C17", propC17) }
 
 const c17Rule = "rapid-generated: base channel (recording fake, in-process, httpgrpc, real *grpc.ClientConn over bufconn) x 0..4 InterceptClientConn layers, each with nil or non-nil unary and stream interceptors x behaviours (pass, short-circuit error incl. a bare context error, short-circuit success, append / drop call options, rewrite the method, use the invoker twice) x 0..2 caller options x unary/stream call x caller context live or already cancelled (fake base); " +
 	"oracle = model log (recursive interpreter): outermost wrapper first, each applicable interceptor once per use of the invoker above it, with the method and option count as transformed so far and cc = the underlying *grpc.ClientConn iff the base is one (at every depth, unary and stream alike); the base sees method/message/options as transformed; nil,nil returns the same channel; Unwrap returns the wrapped one; " +
-	"also generated since the seeded rounds: interceptors handing on a request of their own (the base and the handler see that one); " +
+	"also generated since the seeded rounds: interceptors handing on a request of their own (the base and the handler see that one), chains up to 8 deep, a sibling wrapper created over the same inner channel after the chain was built, a user-defined WrappedClientConn below the layers whose target changes between calls (the interceptors get the conn underlying each call); " +
 	"non-trivial = depth >= 2; distinct by case hash"
 
 func TestC17(t *testing.T) {
